@@ -20,6 +20,7 @@ import Gotlcp.Lemmas.C06Handshake
 import Gotlcp.Model.RecordTxFacts
 import Gotlcp.Model.RecordRxFacts
 import Gotlcp.Generated.Facts
+import Gotlcp.Tie.RecordSize
 
 set_option linter.unusedSimpArgs false
 set_option linter.unusedVariables false
@@ -670,5 +671,80 @@ example :
     s1.io.raw.length = 7 ∧
     ((reads factsRx codecAead.dec { finishHandshake s1 with io := ⟨[], s1.io.chunks⟩ } [5]).1.map (·.2))
       = [some .badVersion] := by decide
+
+/-! ### the sender's size arithmetic, about the SOURCE TEXT
+
+`Gotlcp.Src.tlcp.{halfConn.explicitNonceLen, Conn.maxPayloadSizeForWrite}` are regenerated from
+tlcp/conn.go by the translator `harness/cmd/go2lean` on every run, statement by statement, over
+*views* of `Conn` / `halfConn` (only the fields the two functions read; `Dyn` is the dynamic type
+of the interface value `c.out.cipher`; the `int64` counters are `BitVec 64` with signed
+comparisons; `x & ^(b-1)` is two's complement on 64 bits).  `Gotlcp.Tie.RecordSize` proves them
+equal to `Model.RecordTx` for every view in the stated ranges, so the size theorems above hold of
+the function text that is in the tree now. -/
+
+theorem C06_src_translated :
+    Src.untranslated = [] ∧ Tie.RecordSize.Tlcp.P = factsTx := ⟨by decide, rfl⟩
+
+open Gotlcp.Tie.RecordSize.Tlcp in
+/-- **The translated `maxPayloadSizeForWrite` is the model**: for every view of a connection whose
+`c.out` is unprotected, SM4-GCM or SM4-CBC-SM3 with the size parameters of `factsTx`
+(`Matches`), every pair of non-negative counters, dynamic record sizing on or off, every record
+type — same size, same successor counters, nothing else of the view touched. -/
+theorem C06_src_max_payload_is_model (c : Src.tlcp.Conn) (typ : BitVec 8) (k : Kind)
+    (hm : Matches c.out k) (hp : 0 ≤ c.packetsSent.toInt) (hb : 0 ≤ c.bytesSent.toInt) :
+    ∃ c' n, Src.tlcp.Conn.maxPayloadSizeForWrite c typ = .ok (c', n) ∧
+      (n, abs c') = maxPayload factsTx c.config.DynamicRecordSizingDisabled k (typ == 23#8) (abs c) ∧
+      c'.config = c.config ∧ c'.out = c.out ∧ c'.bytesSent = c.bytesSent :=
+  tie_maxPayloadSizeForWrite c typ k hm hp hb
+
+open Gotlcp.Tie.RecordSize.Tlcp in
+/-- the translated `explicitNonceLen` is the model's -/
+theorem C06_src_explicit_nonce (hc : Src.tlcp.halfConn) (k : Kind) (hm : Matches hc k) :
+    Src.tlcp.halfConn.explicitNonceLen hc = .ok (explicitNonceLen factsTx k : Int) :=
+  tie_explicitNonceLen hc k hm
+
+open Gotlcp.Tie.RecordSize.Tlcp in
+/-- **Progress and plaintext limit, for the source text** (`C06_progress`): for every such view
+the translated `maxPayloadSizeForWrite` returns a size in `[1, maxPlaintext]`. -/
+theorem C06_src_progress (c : Src.tlcp.Conn) (typ : BitVec 8) (k : Kind)
+    (hm : Matches c.out k) (hp : 0 ≤ c.packetsSent.toInt) (hb : 0 ≤ c.bytesSent.toInt) :
+    ∃ c' n, Src.tlcp.Conn.maxPayloadSizeForWrite c typ = .ok (c', n) ∧
+      0 < n ∧ n ≤ (Facts.tlcp.maxPlaintext : Int) := by
+  obtain ⟨c', n, h, he, _⟩ := tie_maxPayloadSizeForWrite c typ k hm hp hb
+  have := C06_progress c.config.DynamicRecordSizingDisabled k (typ == 23#8) (abs c)
+  have hn : n = (maxPayload factsTx c.config.DynamicRecordSizingDisabled k (typ == 23#8) (abs c)).1 :=
+    congrArg Prod.fst he
+  exact ⟨c', n, h, by rw [hn]; exact this.1, by rw [hn]; exact this.2⟩
+
+open Gotlcp.Tie.RecordSize.Tlcp in
+/-- **Ciphertext limit, for the source text** (`C06_cipher_le`): a record of at most the size the
+translated function returns is protected into at most `maxCiphertext` bytes. -/
+theorem C06_src_cipher_le (c : Src.tlcp.Conn) (typ : BitVec 8) (k : Kind)
+    (hm : Matches c.out k) (hp : 0 ≤ c.packetsSent.toInt) (hb : 0 ≤ c.bytesSent.toInt) :
+    ∃ c' n, Src.tlcp.Conn.maxPayloadSizeForWrite c typ = .ok (c', n) ∧
+      ∀ m : Nat, (m : Int) ≤ n → cipherLen factsTx k m ≤ Facts.tlcp.maxCiphertext := by
+  obtain ⟨c', n, h, _, hle⟩ := C06_src_progress c typ k hm hp hb
+  refine ⟨c', n, h, fun m hmn => C06_cipher_le k m ?_⟩
+  omega
+
+open Gotlcp.Tie.RecordSize.Tlcp in
+/-- **No panic**: for EVERY view — any dynamic type of `c.out.cipher` (also `goStream`, which no
+TLCP suite installs), any sizes, any counters (also negative), any record type — both translated
+functions return normally: `default: panic("unknown cipher type")` is reached by no value. -/
+theorem C06_src_no_panic (c : Src.tlcp.Conn) (typ : BitVec 8) :
+    (∃ r, Src.tlcp.Conn.maxPayloadSizeForWrite c typ = .ok r) ∧
+    (∃ n, Src.tlcp.halfConn.explicitNonceLen c.out = .ok n) :=
+  ⟨⟨_, src_shape c typ⟩, ⟨_, src_nonce c.out⟩⟩
+
+open Gotlcp.Tie.RecordSize.Tlcp in
+/-- non-vacuity: an SM4-CBC-SM3 view satisfies the hypotheses, and the translated code run on it
+(kernel evaluation) gives the third record of the ramp: 3 × 1151 -/
+example :
+    let c : Src.tlcp.Conn :=
+      { out := { cipher := .goCBC ⟨16⟩, mac := ⟨32⟩ }, packetsSent := 2#64, bytesSent := 4000#64 }
+    Matches c.out .cbc ∧ 0 ≤ c.packetsSent.toInt ∧ 0 ≤ c.bytesSent.toInt ∧
+    (Src.tlcp.Conn.maxPayloadSizeForWrite c 23#8).toOption = some ({ c with packetsSent := 3#64 }, 3453) := by
+  intro c
+  exact ⟨Matches.cbc ⟨16⟩ rfl (by decide) (by decide), by decide, by decide, by decide⟩
 
 end Gotlcp.Props.C06
